@@ -377,6 +377,11 @@ def bfs_tree(ctx, modname, cname, fn0, kind, excl):
         cond_nodes = {id(n_) for e_, p_ in conds for n_ in ast.walk(e_)}
         excl_elsewhere = [n_ for n_ in au.walk(fn) if au.is_self_attr(n_, excl[1]) and id(n_) not in cond_nodes
                           and not any(hr.same(n_, m_) for e_, p_ in conds for m_ in ast.walk(e_) if isinstance(m_, ast.Attribute))]
+        cls_node = ctx.repo.cls(modname, cname)
+        excl_elsewhere += [n_ for m_ in cls_node.body if isinstance(m_, ast.FunctionDef) and m_.name not in (fn0.name, "__init__", excl[1])
+                           for n_ in ast.walk(m_) if au.is_self_attr(n_, excl[1])]
+        if not any(au.is_self_attr(n_, excl[1]) for n_ in ast.walk(cls_node)) and not any(isinstance(m_, ast.FunctionDef) and m_.name == excl[1] for m_ in cls_node.body):
+            excl_elsewhere.append(cls_node)          # the attribute is not used under this name at all (renamed): the anchor is gone
         if excl[0] == "call":
             hit = None
             popped_roots = sorted([F.root(par, loop), F.root(child, loop)])
@@ -497,6 +502,9 @@ def bfs_tree(ctx, modname, cname, fn0, kind, excl):
                                  if isinstance(e_, ast.Compare) and isinstance(e_.ops[0], (ast.In, ast.NotIn)))] if not nn else []
             if not nn:
                 other_none = other_none + [n_ for n_ in au.walk(loop) if isinstance(n_, ast.Constant) and n_.value is None and isinstance(au.parent(n_), ast.Compare)]
+                pred_conds = pred_conds + [e_ for e_, p_ in conds if any(isinstance(n_, ast.Subscript) and isinstance(n_.value, ast.Name)
+                                                                        and F.root(n_.value.id, c) != F.root(SEEN, c) for n_ in ast.walk(e_))
+                                           or any(isinstance(n_, ast.Attribute) and "interior" in n_.attr for n_ in ast.walk(e_))]
             if not nn and (other_none or odd_conds or pred_conds or F.opaque(fors[0] if fors else fn, {cc})):
                 ctx.undecided("C10-X1", s, f"how the neighbour returned by {au.call_tail(d)} is tested for None is not recognised", "")
             else:
@@ -530,7 +538,12 @@ def bfs_tree(ctx, modname, cname, fn0, kind, excl):
                  "without the mark the guards `not seen[..]` never close: the search does not terminate on a mesh with a cycle")
     pas = [(st, tg, val) for st, tg, val in hr.item_stores(loop) if au.is_self_attr(tg.value, "parent")]
     DIST = None
-    if not pas:
+    prop_tabs = {m_.name for cn_ in [ctx.repo.cls(modname, cname)] + [ctx.repo.cls(BASE, "SpanningTree")] for m_ in cn_.body
+                 if isinstance(m_, ast.FunctionDef) and any(au.src(d_) == "property" for d_ in m_.decorator_list)}
+    if not pas and "parent" in prop_tabs:
+        ctx.undecided("C10-B1", site, "self.parent is a property of the class: how the search fills it is not followed", "")
+        pas = []
+    elif not pas:
         published = [st_ for st_ in au.stmts(fn.body) if isinstance(st_, (ast.Assign, ast.AnnAssign, ast.AugAssign))
                      and any(au.is_self_attr(t_, "parent") or (isinstance(t_, ast.Subscript) and au.is_self_attr(_tab_base(t_), "parent")) for t_ in au.assign_targets(st_))]
         if F.opaque(loop, {child, par}) or published:
@@ -620,8 +633,13 @@ def bfs_tree(ctx, modname, cname, fn0, kind, excl):
     else:
         ctx.fail("C10-B1", site, "newly reached child is not expanded (its neighbours are not enqueued)", "the tree stops at depth 1")
     # root: marked seen + expanded before the loop
+    def _is_root(e_, at_):
+        r_ = F.resolve(e_, at_)
+        while isinstance(r_, ast.Call) and au.call_tail(r_) in ("int", "index") and len(r_.args) == 1:
+            r_ = r_.args[0]
+        return au.is_self_attr(r_, "root")
     root_seen = [st for st in au.stmts(fn.body) if F.before(st, loop) and (fm := hr.flag_mark(st)) and isinstance(fm[0], ast.Name)
-                 and F.root(fm[0].id, st) == F.root(SEEN, loop) and au.is_self_attr(F.resolve(fm[1], st), "root") and fm[2] is True]
+                 and F.root(fm[0].id, st) == F.root(SEEN, loop) and _is_root(fm[1], st) and fm[2] is True]
     sd = F.definition(SEEN, loop)
     plain_false = (isinstance(sd, ast.ListComp) and isinstance(sd.elt, ast.Constant) and sd.elt.value is False) or \
         (isinstance(sd, ast.BinOp) and isinstance(sd.op, ast.Mult) and any(isinstance(x, ast.List) and len(x.elts) == 1 and au.const(x.elts[0]) is False for x in (sd.left, sd.right))) or \
@@ -879,6 +897,10 @@ def p1_children(ctx, modname, cname, fn0, F, kind, loop, DIST, par_, child_, SEE
                              and any(au.is_self_attr(t, "children") or au.is_self_attr(t, "edges") for t in au.assign_targets(st))]
     opaque += [c for c in au.calls(fn) if isinstance(c.func, ast.Attribute) and c.func.attr in ("extend", "insert", "update")
                and (au.is_self_attr(c.func.value, "edges") or au.is_self_attr(c.func.value, "children"))]
+    props_ = {m_.name for cn_ in [ctx.repo.cls(modname, cname), ctx.repo.cls(BASE, "SpanningTree")] for m_ in cn_.body
+              if isinstance(m_, ast.FunctionDef) and any(au.src(d_) == "property" for d_ in m_.decorator_list)}
+    if {"edges", "children"} & props_:
+        opaque = list(opaque) + [fn]
     known_nodes = {id(n_) for c_ in ch + ed for n_ in ast.walk(c_)}
     opaque += [n_ for n_ in au.walk(fn) if (au.is_self_attr(n_, "children") or au.is_self_attr(n_, "edges")) and id(n_) not in known_nodes]
     if len(ch) != 1 or len(ed) != 1:
@@ -1251,6 +1273,17 @@ def c1_computed(ctx):
                                                       and c_.func.value.id == "self" and not hf_flat.is_private(c_.func.attr)
                                                       and c_.func.attr not in Fc.KNOWN_METHODS and repo.has_func(modname, cname + "." + c_.func.attr)]
         unseen += [c_ for c_ in au.calls(Fc.fn) if isinstance(c_.func, ast.Attribute) and c_.func.attr in ("setattr", "__setattr__")]
+        unseen += [c_ for c_ in au.calls(Fc.fn) if isinstance(c_.func, ast.Attribute) and isinstance(c_.func.value, ast.Name) and c_.func.value.id == "self"
+                   and c_.func.attr not in ("compute",) and Fc._own_method(c_.func.attr) and not hf_flat.is_private(c_.func.attr)]
+        # the chain of super().compute() ends in a base method that does not assign the flag itself but calls a method / sets a property
+        base_fn = repo.func(BASE, "SpanningTree.compute") if repo.has_func(BASE, "SpanningTree.compute") else None
+        if base_fn is not None and not any(isinstance(st_, (ast.Assign, ast.AnnAssign)) and any(au.is_self_attr(t_, "_computed") for t_ in au.assign_targets(st_))
+                                           for st_ in au.stmts(base_fn.body)) and \
+                ([c_ for c_ in au.calls(base_fn) if isinstance(c_.func, ast.Attribute) and isinstance(c_.func.value, ast.Name) and c_.func.value.id == "self"] or
+                 [st_ for st_ in au.stmts(base_fn.body) if isinstance(st_, (ast.Assign, ast.AnnAssign)) and any(au.is_self_attr(t_) for t_ in au.assign_targets(st_))]):
+            unseen.append(base_fn)
+        unseen += [st_ for st_ in au.stmts(Fc.fn.body) if isinstance(st_, (ast.Assign, ast.AnnAssign)) and any(au.is_self_attr(t_) and "computed" in t_.attr and t_.attr != "_computed"
+                                                                                                                 for t_ in au.assign_targets(st_))]
         unseen += [c_ for c_ in au.calls(Fc.fn) if isinstance(c_.func, ast.Name) and c_.func.id == "setattr"]
         unseen += [c_ for c_ in au.calls(Fc.fn) if any(isinstance(a_, ast.Name) and a_.id == "self" for a_ in list(c_.args) + [k_.value for k_ in c_.keywords])
                    and not (isinstance(c_.func, ast.Attribute) and c_.func.attr == "compute")]
@@ -1298,6 +1331,10 @@ def c1_computed(ctx):
                     if au.const(st.value) is True:
                         outer_ = q.split(".<locals>.")[0].rsplit(".", 1)[-1]
                         after_compute = any(isinstance(c_.func, ast.Attribute) and c_.func.attr == "compute" and F_before_(f, c_, st) for c_ in au.calls(f))
+                        known_cls_ = {c_[1] for c_ in BFS_TREES} | {c_[1] for c_ in FORESTS} | {"SpanningTree", "SpanningForest", "EdgeMinimalSpanningTree"}
+                        if q.split(".")[0] not in known_cls_:
+                            ctx.undecided("C10-C1", ctx.site(modname, f, st), "`_computed = True` in a class the rule does not know", "")
+                            continue
                         if f.name not in ("__init__", "traverse", "__call__", "edges", "compute", "build_tree_as_polyline") and not hf_flat.is_private(f.name) \
                                 and outer_ not in ("compute",) and not after_compute:
                             ctx.undecided("C10-C1", ctx.site(modname, f, st), "`_computed = True` in a method the rule does not know", "")
@@ -1341,7 +1378,9 @@ def c1_computed(ctx):
     if not uses:
         ctx.undecided("C10-C1", site, "traverse does not yield anything directly", "")
     badu = [x for x, okk in uses.values() if not okk]
-    if uses and badu and (tr0.decorator_list or _flat(ctx, BASE, tr0).impure_self_calls(tr) or
+    own_calls_ = [c_ for c_ in au.calls(tr) if isinstance(c_.func, ast.Attribute) and isinstance(c_.func.value, ast.Name) and c_.func.value.id == "self"
+                  and ctx.repo.has_func(BASE, "SpanningTree." + c_.func.attr)]
+    if uses and badu and (tr0.decorator_list or own_calls_ or _flat(ctx, BASE, tr0).impure_self_calls(tr) or
                           any(isinstance(c_, ast.Call) and any(au.is_self_attr(a_, "_computed") or (isinstance(a_, ast.Constant) and a_.value == "_computed")
                                                                for a_ in list(c_.args) + [k_.value for k_ in c_.keywords]) for c_ in au.calls(tr)
                               if au.call_tail(c_) != "getattr") or
@@ -1547,7 +1586,9 @@ def k1_kruskal(ctx):
     LIST = it.id if isinstance(it, ast.Name) else None
     keyinfo = None
     sort_node = None
-    if isinstance(it, ast.Call) and au.call_tail(it) == "argsort" and ends_ok is True:
+    if isinstance(it, ast.Call) and au.call_tail(it) == "argsort" and ends_ok is True and not _ranks_filtered_list(F, fn, it, lp):
+        ctx.undecided(R, site, "Kruskal's loop scans positions given by argsort over a list that is not filtered", "")
+    elif isinstance(it, ast.Call) and au.call_tail(it) == "argsort" and ends_ok is True:
         ctx.fail(R, site, "the edge list scanned by Kruskal's loop is the result of argsort",
                  "argsort returns positions in the candidate list, not edge ids: with a filtered candidate list the loop scans other edges")
     elif isinstance(it, ast.Call) and au.call_tail(it) == "argsort":
@@ -1560,6 +1601,9 @@ def k1_kruskal(ctx):
             sort_node = d
         elif isinstance(d, ast.Call) and au.call_tail(d) == "argsort" and ends_ok is not True:
             ctx.undecided(R, site, "Kruskal's loop scans positions given by argsort: how they are turned into edge ids is not recognised", "")
+            LIST = None
+        elif isinstance(d, ast.Call) and au.call_tail(d) == "argsort" and not _ranks_filtered_list(F, fn, d, lp):
+            ctx.undecided(R, site, "Kruskal's loop scans positions given by argsort over a list that is not filtered", "")
             LIST = None
         elif isinstance(d, ast.Call) and au.call_tail(d) == "argsort":
             ctx.fail(R, site, "the edge list scanned by Kruskal's loop is the result of argsort",
@@ -1770,6 +1814,11 @@ def _k1_admissible(ctx, F, fn0, LIST, lp, sort_node):
     want = {(ab, pl): ("filtered" if (ab and not pl) else "all") for ab, pl in res}
     if res == want:
         ctx.ok(R, site, "border exclusion agrees with _avoid_edge on the 4 switch combinations")
+    elif all(v in ("all", "filtered", "inverted") for v in res.values()) and \
+            [c_ for c_ in au.calls(fn) if au.call_tail(c_) in ("_avoid_edge", "is_edge_on_border") and any(isinstance(a_, (ast.For, ast.While)) and
+                                                                                                     any(au.call_tail(u_) == "union" for u_ in au.calls(a_))
+                                                                                                     for a_ in au.ancestors(c_))]:
+        ctx.undecided(R, site, "border edges are excluded while Kruskal's loop scans the edges", "")
     elif all(v in ("all", "filtered", "inverted") for v in res.values()) and not _switches_are_plain(ctx):
         ctx.undecided(R, site, "the switches tested by the selection of the admissible edges are not the plain constructor arguments", "")
     elif all(v in ("all", "filtered", "inverted") for v in res.values()):
@@ -1821,6 +1870,22 @@ def _is_none_like(F, e, at):
             return True
         mc = F.module_constants().get(e.id)
         return mc is not None and hr.is_none(mc)
+    return False
+
+
+def _ranks_filtered_list(F, fn, call, at):
+    """the array ranked by argsort is built from a local list that may be filtered (a comprehension with a condition, or bound on several branches)"""
+    try:
+        r = F.resolve(call, at)
+    except Exception:
+        r = call
+    for n_ in list(ast.walk(r)) + list(ast.walk(call)):
+        if isinstance(n_, ast.Name):
+            vals = [v_ for st_ in au.stmts(fn.body) for nm_, v_ in sym.split_assign(st_) if nm_ == n_.id]
+            if any(isinstance(v_, ast.ListComp) and any(g_.ifs for g_ in v_.generators) for v_ in vals) or len([v_ for v_ in vals if isinstance(v_, (ast.ListComp, ast.List))]) > 1:
+                return True
+        if isinstance(n_, (ast.ListComp, ast.GeneratorExp)) and any(g_.ifs for g_ in n_.generators):
+            return True
     return False
 
 
@@ -2145,7 +2210,26 @@ def t1_traverse(ctx):
     b = F.b
     qs = deque_names(fn)
     loops = [st for st in au.stmts(fn.body) if isinstance(st, ast.While) and qs & au.names(st)]
-    if len([st for st in au.stmts(fn.body) if isinstance(st, (ast.While, ast.For)) and any(isinstance(n_, ast.Yield) for n_ in au.walk(st))]) > 1:
+    # a traversal order kept on the tree and replayed by later calls must be complete when it becomes visible: a list stored on `self` before the
+    # traversal loop and filled while the generator is consumed is replayed truncated after a traversal that was abandoned (or is still running)
+    yloops = [st for st in au.stmts(fn.body) if isinstance(st, (ast.While, ast.For)) and any(isinstance(n_, ast.Yield) for n_ in au.walk(st))]
+    for st in au.stmts(fn.body):
+        if not isinstance(st, (ast.Assign, ast.AnnAssign)) or st.value is None or not isinstance(st.value, ast.Name):
+            continue
+        tgs = [t for t in au.assign_targets(st) if isinstance(_tab_base(t), ast.Attribute) and au.is_self_attr(_tab_base(t))]
+        if not tgs:
+            continue
+        L = st.value.id
+        field = _tab_base(tgs[0]).attr
+        filled_later = [c for lp_ in yloops for c in au.calls(lp_) if isinstance(c.func, ast.Attribute) and c.func.attr in ("append", "extend", "insert", "add")
+                        and isinstance(c.func.value, ast.Name) and F.root(c.func.value.id, c) == F.root(L, st) and F.before(st, lp_)]
+        replayed = [lp_ for lp_ in yloops if isinstance(lp_, ast.For) and any(au.is_self_attr(n_, field) for n_ in ast.walk(lp_.iter))]
+        if filled_later and replayed:
+            ctx.fail(R, ctx.site(BASE, fn0, st), "traverse replays a visiting order cached on the tree that is registered before the traversal has completed",
+                     "the list is stored on the tree first and filled while the generator is consumed: after a traversal that is abandoned early (or while "
+                     "one is still running) every later traversal replays only the prefix visited so far and skips reached elements")
+            return
+    if len(yloops) > 1:
         ctx.undecided(R, site, "traverse has several loops that yield", "")
         return
     if len(qs) != 1 or len(loops) != 1:
@@ -2580,3 +2664,22 @@ def n1_none_defaults(ctx):
 def _is_none_test(e, name):
     return isinstance(e, ast.Compare) and len(e.ops) == 1 and isinstance(e.ops[0], ast.Is) and isinstance(e.left, ast.Name) and e.left.id == name \
         and isinstance(e.comparators[0], ast.Constant) and e.comparators[0].value is None
+
+
+
+# ----------------------------------------------------------------------- generic families (msa/rules/generic.py)
+_run_specific = run
+
+
+def run(ctx):
+    _run_specific(ctx)
+    from ..rules import generic
+    generic.apply(ctx, "C10", stale_modules=('processing.trees.edge_sp', 'processing.trees.face_sp', 'processing.trees.cell_sp', 'processing.trees.base'))
+
+
+def _generic_rule_texts():
+    from ..rules import generic
+    return generic.rule_texts("C10", stale=True)
+
+
+RULES.update(_generic_rule_texts())
